@@ -41,6 +41,27 @@ structure RecOk (c : Writer.Col) (codec : Nat) (r : Writer.PageRec) : Prop where
   hdrShort : (hdrBytes r).length ≤ 256
   pos : 0 < r.rows
 
+/-- The part of `RecOk` that does not depend on how the stored body was made: the record's body is
+the page body of its content, the content has the page builder's shape, the header fields fit and
+the header lies inside the first 256-byte window. -/
+structure RecShape (c : Writer.Col) (r : Writer.PageRec) : Prop where
+  body : r.body = Writer.pageBody D c r.src
+  rows : r.rows = r.src.numValues
+  shape : PageShape c r.src
+  fits : HdrFits r.body.length r.comp.length (FileReal.crc32 r.comp) r.rows r.stats
+  hdrShort : (hdrBytes r).length ≤ 256
+  pos : 0 < r.rows
+
+/-- The general form of `RecOk`, for ANY codec tag (GZIP and ZSTD included) and library behaviour
+`L`: instead of "the stored body is `compress_data` of the body for one of the byte-exact codecs" it
+asks for what the reader needs of it — the loaders' decompression step (`pageData`, with the
+header's `uncompressed_page_size`) turns the stored body back into the body. -/
+structure RecOkL (L : Libs) (c : Writer.Col) (codec : Nat) (r : Writer.PageRec) : Prop extends RecShape c r where
+  stored : pageData L (codec : Int) r.comp r.body.length = .ok r.body
+
+theorem RecOk.toShape {c : Writer.Col} {codec : Nat} {r : Writer.PageRec} (h : RecOk c codec r) : RecShape c r :=
+  ⟨h.body, h.rows, h.shape, h.fits, h.hdrShort, h.pos⟩
+
 /-- the decoded page a record stands for -/
 def decodedOf (c : Writer.Col) (r : Writer.PageRec) : Decoded :=
   ⟨if c.maxDef > 0 then r.src.defs else List.replicate r.src.numValues 0, List.replicate r.src.numValues 0, r.src.values⟩
@@ -53,7 +74,7 @@ theorem crc32_lt (x : Reader.Bytes) : FileReal.crc32 x < 2 ^ 32 := by
   unfold FileReal.crc32; exact (Crc32.crc32 x).isLt
 
 /-- the header of a writer page parses to its fields from any window that contains it -/
-theorem header_parse (r : Writer.PageRec) (c : Writer.Col) (codec : Nat) (hr : RecOk c codec r) (rest : Reader.Bytes) :
+theorem header_parse (r : Writer.PageRec) (c : Writer.Col) (hr : RecShape c r) (rest : Reader.Bytes) :
     parseWindow (hdrBytes r ++ rest) =
       .ok (⟨0, r.body.length, r.comp.length, some (FileReal.asI32 (FileReal.crc32 r.comp)), r.rows, 0⟩, (hdrBytes r).length) := by
   unfold parseWindow hdrBytes
@@ -64,8 +85,8 @@ theorem slice_append_mid (pre mid post : Reader.Bytes) : slice (pre ++ mid ++ po
   rw [List.append_assoc, List.drop_left' rfl, List.take_of_length_le (by simp)]
 
 /-- reading the header of a writer page at its offset, in any mode -/
-theorem loadHeader_writerPage (mode : Mode) (pre post : Reader.Bytes) (c : Writer.Col) (codec : Nat) (r : Writer.PageRec)
-    (hr : RecOk c codec r) (hpost : 8 ≤ post.length) :
+theorem loadHeader_writerPage (mode : Mode) (pre post : Reader.Bytes) (c : Writer.Col) (r : Writer.PageRec)
+    (hr : RecShape c r) (hpost : 8 ≤ post.length) :
     (loadHeader mode (pre ++ (hdrBytes r ++ r.comp) ++ post) (pre.length : Int)).result =
       .ok (⟨0, r.body.length, r.comp.length, some (FileReal.asI32 (FileReal.crc32 r.comp)), r.rows, 0⟩, (hdrBytes r).length) := by
   have hlen : (pre ++ (hdrBytes r ++ r.comp) ++ post).length = pre.length + ((hdrBytes r).length + r.comp.length) + post.length := by
@@ -84,7 +105,7 @@ theorem loadHeader_writerPage (mode : Mode) (pre post : Reader.Bytes) (c : Write
       have e : pre.length + ((hdrBytes r).length + r.comp.length) + post.length - pre.length =
           (hdrBytes r ++ r.comp).length + post.length := by simp [List.length_append]; omega
       rw [e, this, List.append_assoc]
-    rw [hw, header_parse r c codec hr]
+    rw [hw, header_parse r c hr]
   · -- fread: the first window of 256 bytes already holds the header
     rw [if_neg (by omega)]
     simp only [Int.toNat_natCast]
@@ -97,7 +118,7 @@ theorem loadHeader_writerPage (mode : Mode) (pre post : Reader.Bytes) (c : Write
     show (freadHeaderLoop _ _ (17 + 1) 256).result = _
     unfold freadHeaderLoop
     rw [if_neg (by rw [hl, hlen]; omega)]
-    have hp := header_parse r c codec hr ((r.comp ++ post).take (256 - (hdrBytes r).length))
+    have hp := header_parse r c hr ((r.comp ++ post).take (256 - (hdrBytes r).length))
     unfold parseWindow at hp
     rw [hw]
     split
@@ -161,7 +182,7 @@ def hdrOf (r : Writer.PageRec) : ThriftParquetReq.PageHdr × Nat :=
 /-- the rest of the load of a writer page, in any mode: the page builder's content comes back -/
 theorem finish_writerPage (L : Libs) (verify : Bool) (mode : Mode) (pre post : Reader.Bytes) (c : Writer.Col)
     (cm : ThriftParquet.ColumnMetaData) (codec : Nat) (r : Writer.PageRec) (st : PState)
-    (hr : RecOk c codec r) (hcodec : cm.codec = (codec : Int))
+    (hr : RecOkL L c codec r) (hcodec : cm.codec = (codec : Int))
     (hoff : st.dataStart + st.currentPage = (pre.length : Int)) (hrem : (r.rows : Int) ≤ st.valuesRemaining)
     (hsz : (pre ++ (hdrBytes r ++ r.comp) ++ post).length < 2 ^ 64) :
     (okOf (finishDataPage Fixes.all L verify mode (pre ++ (hdrBytes r ++ r.comp) ++ post) (colOf c cm) st (hdrOf r)).result).map proj =
@@ -183,7 +204,7 @@ theorem finish_writerPage (L : Libs) (verify : Bool) (mode : Mode) (pre post : R
   have hfits := hr.fits
   have hpd : pageData L (colOf c cm).cm.codec r.comp (hdrOf r).1.uncompressed.toNat = .ok r.body := by
     simp only [colOf, hcodec, hdrOf, Int.toNat_natCast]
-    exact stored_body_roundtrip L codec r.body r.comp hr.codecOk (by have := hfits.1; omega) hr.comp
+    exact hr.stored
   have hdec : readDataPageV1 Fixes.all (colOf c cm) st.dict r.body (hdrOf r).1.word0.toNat (hdrOf r).1.word4 = .ok (decodedOf c r) := by
     simp only [hdrOf, Int.toNat_natCast]
     rw [hr.body, hr.rows]
@@ -211,10 +232,11 @@ theorem finish_writerPage (L : Libs) (verify : Bool) (mode : Mode) (pre post : R
   rw [hdec]
   rfl
 
-/-- **one page**: `load_next_page` on a writer page, in any mode, in any state that points at it -/
-theorem loadPage_writerPage (L : Libs) (verify : Bool) (mode : Mode) (pre post : Reader.Bytes) (c : Writer.Col)
+/-- **one page**, general form (any codec tag, `RecOkL`): `load_next_page` on a writer page, in any mode, in any
+state that points at it -/
+theorem loadPage_writerPageL (L : Libs) (verify : Bool) (mode : Mode) (pre post : Reader.Bytes) (c : Writer.Col)
     (cm : ThriftParquet.ColumnMetaData) (codec : Nat) (r : Writer.PageRec) (st : PState)
-    (hr : RecOk c codec r) (hcodec : cm.codec = (codec : Int)) (hnd : cm.dictionaryPageOffset = none)
+    (hr : RecOkL L c codec r) (hcodec : cm.codec = (codec : Int)) (hnd : cm.dictionaryPageOffset = none)
     (hoff : st.dataStart + st.currentPage = (pre.length : Int)) (hrem : (r.rows : Int) ≤ st.valuesRemaining)
     (hpost : 8 ≤ post.length) (hsz : (pre ++ (hdrBytes r ++ r.comp) ++ post).length < 2 ^ 64) :
     (okOf (loadPage Fixes.all L verify mode (pre ++ (hdrBytes r ++ r.comp) ++ post) (colOf c cm) st).result).map proj =
@@ -223,7 +245,7 @@ theorem loadPage_writerPage (L : Libs) (verify : Bool) (mode : Mode) (pre post :
   have hds : dictStep Fixes.all L verify mode (pre ++ (hdrBytes r ++ r.comp) ++ post) (colOf c cm) st = Load.pure (.ok st) := by
     unfold dictStep
     simp only [colOf, hnd]
-  have hh := loadHeader_writerPage mode pre post c codec r hr hpost
+  have hh := loadHeader_writerPage mode pre post c r hr.toRecShape hpost
   have hinl : inlineDictDue st (hdrOf r).1 = false := by simp [inlineDictDue, hdrOf]
   have hprep : (prepStage Fixes.all L verify mode (pre ++ (hdrBytes r ++ r.comp) ++ post) (colOf c cm) st).result = .ok (st, hdrOf r) := by
     unfold prepStage
@@ -250,6 +272,22 @@ theorem loadPage_writerPage (L : Libs) (verify : Bool) (mode : Mode) (pre post :
     rw [this]
     rfl
 
+/-- `RecOk` (one of the byte-exact codecs) is an instance of the general form, for every library behaviour -/
+theorem RecOk.toL (L : Libs) {c : Writer.Col} {codec : Nat} {r : Writer.PageRec} (h : RecOk c codec r) : RecOkL L c codec r :=
+  { toRecShape := h.toShape,
+    stored := stored_body_roundtrip L codec r.body r.comp h.codecOk (by have := h.fits.1; omega) h.comp }
+
+/-- **one page**: `load_next_page` on a writer page, in any mode, in any state that points at it -/
+theorem loadPage_writerPage (L : Libs) (verify : Bool) (mode : Mode) (pre post : Reader.Bytes) (c : Writer.Col)
+    (cm : ThriftParquet.ColumnMetaData) (codec : Nat) (r : Writer.PageRec) (st : PState)
+    (hr : RecOk c codec r) (hcodec : cm.codec = (codec : Int)) (hnd : cm.dictionaryPageOffset = none)
+    (hoff : st.dataStart + st.currentPage = (pre.length : Int)) (hrem : (r.rows : Int) ≤ st.valuesRemaining)
+    (hpost : 8 ≤ post.length) (hsz : (pre ++ (hdrBytes r ++ r.comp) ++ post).length < 2 ^ 64) :
+    (okOf (loadPage Fixes.all L verify mode (pre ++ (hdrBytes r ++ r.comp) ++ post) (colOf c cm) st).result).map proj =
+      some (decodedOf c r, (hdrBytes r).length, r.comp.length) ∧
+    stateAfterLoad Fixes.all L verify mode (pre ++ (hdrBytes r ++ r.comp) ++ post) (colOf c cm) st = st :=
+  loadPage_writerPageL L verify mode pre post c cm codec r st (hr.toL L) hcodec hnd hoff hrem hpost hsz
+
 /-! ### the pages of a chunk, one after the other -/
 
 /-- the page the column reader model (`Impl.ColumnReader.Page`) receives for a record -/
@@ -260,7 +298,7 @@ def chunkBytes (ps : List Writer.PageRec) : Reader.Bytes := (ps.map (fun r => hd
 
 def sumRows (ps : List Writer.PageRec) : Nat := (ps.map (·.rows)).sum
 
-theorem decodedOf_rows (c : Writer.Col) (codec : Nat) (r : Writer.PageRec) (hr : RecOk c codec r) :
+theorem decodedOf_rowsS (c : Writer.Col) (r : Writer.PageRec) (hr : RecShape c r) :
     (decodedOf c r).defs.length = r.rows := by
   unfold decodedOf
   simp only
@@ -282,7 +320,7 @@ the pages hold, the page iteration delivers exactly the writer's pages, in order
 theorem chunkPages_writer (L : Libs) (verify : Bool) (mode : Mode) (c : Writer.Col) (cm : ThriftParquet.ColumnMetaData)
     (codec : Nat) (hcodec : cm.codec = (codec : Int)) (hnd : cm.dictionaryPageOffset = none) :
     ∀ (ps : List Writer.PageRec) (pre post : Reader.Bytes) (st : PState) (fuel : Nat),
-      (∀ r ∈ ps, RecOk c codec r) → ps.length < fuel → 8 ≤ post.length →
+      (∀ r ∈ ps, RecOkL L c codec r) → ps.length < fuel → 8 ≤ post.length →
       (pre ++ chunkBytes ps ++ post).length < 2 ^ 64 →
       st.dataStart + st.currentPage = (pre.length : Int) → st.valuesRemaining = (sumRows ps : Int) →
       chunkPages Fixes.all L verify mode (pre ++ chunkBytes ps ++ post) (colOf c cm) fuel st =
@@ -307,7 +345,7 @@ theorem chunkPages_writer (L : Libs) (verify : Bool) (mode : Mode) (c : Writer.C
         simp [chunkBytes, List.append_assoc]
       have hsum : sumRows (r :: rest) = r.rows + sumRows rest := by simp [sumRows]
       rw [hbytes] at hsz ⊢
-      have hlp := loadPage_writerPage L verify mode pre (chunkBytes rest ++ post) c cm codec r st hr hcodec hnd hoff
+      have hlp := loadPage_writerPageL L verify mode pre (chunkBytes rest ++ post) c cm codec r st hr hcodec hnd hoff
         (by rw [hrem, hsum]; omega) (by simp only [List.length_append]; omega) hsz
       obtain ⟨p, hp, hpage, hhs, hcs⟩ := ok_of_proj hlp.1
       unfold chunkPages
@@ -325,12 +363,12 @@ theorem chunkPages_writer (L : Libs) (verify : Bool) (mode : Mode) (c : Writer.C
         · unfold stepOver; simp only
           rw [hhs, hcs]; simp only [List.length_append]; omega
         · unfold stepOver; simp only
-          rw [hpage, decodedOf_rows c codec r hr, hrem, hsum]; omega
+          rw [hpage, decodedOf_rowsS c r hr.toRecShape, hrem, hsum]; omega
 
 /-! ### the chunk as the column reader consumes it -/
 
-theorem hdrBytes_pos (c : Writer.Col) (codec : Nat) (r : Writer.PageRec) (hr : RecOk c codec r) : 1 ≤ (hdrBytes r).length := by
-  have h := header_parse r c codec hr []
+theorem hdrBytes_pos (c : Writer.Col) (r : Writer.PageRec) (hr : RecShape c r) : 1 ≤ (hdrBytes r).length := by
+  have h := header_parse r c hr []
   unfold parseWindow at h
   split at h
   · cases h
@@ -340,17 +378,38 @@ theorem hdrBytes_pos (c : Writer.Col) (codec : Nat) (r : Writer.PageRec) (hr : R
     rw [h] at this
     exact this
 
-theorem chunkBytes_length_ge (c : Writer.Col) (codec : Nat) : ∀ (ps : List Writer.PageRec), (∀ r ∈ ps, RecOk c codec r) →
+theorem chunkBytes_length_ge (c : Writer.Col) : ∀ (ps : List Writer.PageRec), (∀ r ∈ ps, RecShape c r) →
     ps.length ≤ (chunkBytes ps).length := by
   intro ps
   induction ps with
   | nil => intro _; simp
   | cons r rest ih =>
     intro h
-    have h1 := hdrBytes_pos c codec r (h r (by simp))
+    have h1 := hdrBytes_pos c r (h r (by simp))
     have h2 := ih (fun x hx => h x (List.mem_cons_of_mem _ hx))
     simp only [chunkBytes, List.map_cons, List.flatten_cons, List.length_append, List.length_cons] at h2 ⊢
     omega
+
+/-- **the chunk**, general form (any codec tag, `RecOkL`): for a chunk whose metadata point at the writer's
+pages, the chunk description the column reader model consumes (`chunkOf`) has exactly the writer's pages, in any mode -/
+theorem chunkOf_writerL (L : Libs) (verify : Bool) (mode : Mode) (c : Writer.Col) (cm : ThriftParquet.ColumnMetaData)
+    (codec : Nat) (ps : List Writer.PageRec) (pre post : Reader.Bytes)
+    (hcodec : cm.codec = (codec : Int)) (hnd : cm.dictionaryPageOffset = none)
+    (hoff : cm.dataPageOffset = (pre.length : Int)) (hnv : cm.numValues = (sumRows ps : Int))
+    (hall : ∀ r ∈ ps, RecOkL L c codec r) (hpost : 8 ≤ post.length) (hsz : (pre ++ chunkBytes ps ++ post).length < 2 ^ 64) :
+    (chunkOf Fixes.all L verify mode (pre ++ chunkBytes ps ++ post) (colOf c cm)).pages = ps.map (fun r => some (cursorPage c r)) ∧
+    (chunkOf Fixes.all L verify mode (pre ++ chunkBytes ps ++ post) (colOf c cm)).numValues = (sumRows ps : Int) ∧
+    (chunkOf Fixes.all L verify mode (pre ++ chunkBytes ps ++ post) (colOf c cm)).maxDef = c.maxDef := by
+  refine ⟨?_, hnv, rfl⟩
+  unfold chunkOf
+  simp only
+  apply chunkPages_writer L verify mode c cm codec hcodec hnd ps pre post (PState.init (colOf c cm)) _ hall
+  · have := chunkBytes_length_ge c ps (fun r hr => (hall r hr).toRecShape)
+    simp only [List.length_append]; omega
+  · exact hpost
+  · exact hsz
+  · simp only [PState.init, colOf, hoff]; omega
+  · simp only [PState.init, colOf, hnv]
 
 /-- **the chunk**: for a chunk whose metadata point at the writer's pages, the chunk description
 the column reader model consumes (`chunkOf`) has exactly the writer's pages, in any mode -/
@@ -361,23 +420,14 @@ theorem chunkOf_writer (L : Libs) (verify : Bool) (mode : Mode) (c : Writer.Col)
     (hall : ∀ r ∈ ps, RecOk c codec r) (hpost : 8 ≤ post.length) (hsz : (pre ++ chunkBytes ps ++ post).length < 2 ^ 64) :
     (chunkOf Fixes.all L verify mode (pre ++ chunkBytes ps ++ post) (colOf c cm)).pages = ps.map (fun r => some (cursorPage c r)) ∧
     (chunkOf Fixes.all L verify mode (pre ++ chunkBytes ps ++ post) (colOf c cm)).numValues = (sumRows ps : Int) ∧
-    (chunkOf Fixes.all L verify mode (pre ++ chunkBytes ps ++ post) (colOf c cm)).maxDef = c.maxDef := by
-  refine ⟨?_, hnv, rfl⟩
-  unfold chunkOf
-  simp only
-  apply chunkPages_writer L verify mode c cm codec hcodec hnd ps pre post (PState.init (colOf c cm)) _ hall
-  · have := chunkBytes_length_ge c codec ps hall
-    simp only [List.length_append]; omega
-  · exact hpost
-  · exact hsz
-  · simp only [PState.init, colOf, hoff]; omega
-  · simp only [PState.init, colOf, hnv]
+    (chunkOf Fixes.all L verify mode (pre ++ chunkBytes ps ++ post) (colOf c cm)).maxDef = c.maxDef :=
+  chunkOf_writerL L verify mode c cm codec ps pre post hcodec hnd hoff hnv (fun r hr => (hall r hr).toL L) hpost hsz
 
 open Carquet.Impl.ColumnReader in
 /-- the writer's pages are well-formed pages for the column reader model -/
-theorem cursorPage_ok (c : Writer.Col) (codec : Nat) (r : Writer.PageRec) (hr : RecOk c codec r) :
+theorem cursorPage_okS (c : Writer.Col) (r : Writer.PageRec) (hr : RecShape c r) :
     Carquet.Proofs.Cursor.PageOk c.maxDef (cursorPage c r) := by
-  have hrows := decodedOf_rows c codec r hr
+  have hrows := decodedOf_rowsS c r hr
   have hsh := hr.shape
   have hpos := hr.pos
   unfold Carquet.Proofs.Cursor.PageOk cursorPage
@@ -414,7 +464,7 @@ theorem writtenRows_cons (c : Writer.Col) (r : Writer.PageRec) (ps : List Writer
     writtenRows c (r :: ps) = rowsOfPage c.maxDef (cursorPage c r) ++ writtenRows c ps := rfl
 
 open Carquet.Proofs.Cursor in
-theorem writtenRows_length (c : Writer.Col) (codec : Nat) : ∀ (ps : List Writer.PageRec), (∀ r ∈ ps, RecOk c codec r) →
+theorem writtenRows_lengthS (c : Writer.Col) : ∀ (ps : List Writer.PageRec), (∀ r ∈ ps, RecShape c r) →
     (writtenRows c ps).length = sumRows ps := by
   intro ps
   induction ps with
@@ -422,18 +472,18 @@ theorem writtenRows_length (c : Writer.Col) (codec : Nat) : ∀ (ps : List Write
   | cons r rest ih =>
     intro h
     have hr := h r (by simp)
-    have hp := cursorPage_ok c codec r hr
+    have hp := cursorPage_okS c r hr
     rw [writtenRows_cons, List.length_append, ih (fun x hx => h x (List.mem_cons_of_mem _ hx))]
     unfold rowsOfPage
     rw [length_pageRows _ _ _ _ (by rw [hp.2.1]; exact Nat.le_refl _)]
-    have := decodedOf_rows c codec r hr
+    have := decodedOf_rowsS c r hr
     simp only [cursorPage, sumRows, List.map_cons, List.sum_cons] at this ⊢
     omega
 
 open Carquet.Proofs.Cursor in
 /-- definition levels of the rows = the page builders' levels, page after page (all zero for a
 REQUIRED column) -/
-theorem writtenRows_defs (c : Writer.Col) (codec : Nat) : ∀ (ps : List Writer.PageRec), (∀ r ∈ ps, RecOk c codec r) →
+theorem writtenRows_defsS (c : Writer.Col) : ∀ (ps : List Writer.PageRec), (∀ r ∈ ps, RecShape c r) →
     (writtenRows c ps).map (·.defLevel) =
       (if c.maxDef > 0 then (ps.map (·.src.defs)).flatten else List.replicate (sumRows ps) 0) := by
   intro ps
@@ -442,7 +492,7 @@ theorem writtenRows_defs (c : Writer.Col) (codec : Nat) : ∀ (ps : List Writer.
   | cons r rest ih =>
     intro h
     have hr := h r (by simp)
-    have hp := cursorPage_ok c codec r hr
+    have hp := cursorPage_okS c r hr
     rw [writtenRows_cons, List.map_append, ih (fun x hx => h x (List.mem_cons_of_mem _ hx))]
     unfold rowsOfPage
     rw [map_def_pageRows _ _ _ _ (by rw [hp.2.1]; exact Nat.le_refl _)]
@@ -453,7 +503,7 @@ theorem writtenRows_defs (c : Writer.Col) (codec : Nat) : ∀ (ps : List Writer.
 
 open Carquet.Proofs.Cursor in
 /-- the values the rows carry, in order = the page builders' dense values, page after page -/
-theorem writtenRows_vals (c : Writer.Col) (codec : Nat) : ∀ (ps : List Writer.PageRec), (∀ r ∈ ps, RecOk c codec r) →
+theorem writtenRows_valsS (c : Writer.Col) : ∀ (ps : List Writer.PageRec), (∀ r ∈ ps, RecShape c r) →
     (writtenRows c ps).filterMap (·.val) = (ps.map (·.src.values)).flatten := by
   intro ps
   induction ps with
@@ -461,7 +511,7 @@ theorem writtenRows_vals (c : Writer.Col) (codec : Nat) : ∀ (ps : List Writer.
   | cons r rest ih =>
     intro h
     have hr := h r (by simp)
-    have hp := cursorPage_ok c codec r hr
+    have hp := cursorPage_okS c r hr
     rw [writtenRows_cons, List.filterMap_append, ih (fun x hx => h x (List.mem_cons_of_mem _ hx))]
     unfold rowsOfPage
     rw [filterMap_val_pageRows _ _ _ _ (by rw [hp.2.1]; exact Nat.le_refl _) (by rw [hp.2.2.1]; exact Nat.le_refl _)]
@@ -470,8 +520,8 @@ theorem writtenRows_vals (c : Writer.Col) (codec : Nat) : ∀ (ps : List Writer.
 
 open Carquet.Proofs.Cursor in
 /-- the chunk the reader builds from a writer chunk is a valid chunk for the column reader -/
-theorem chunkOk_writer (ch : ColumnReader.Chunk Reader.Bytes) (c : Writer.Col) (codec : Nat) (ps : List Writer.PageRec)
-    (hall : ∀ r ∈ ps, RecOk c codec r)
+theorem chunkOk_writerS (ch : ColumnReader.Chunk Reader.Bytes) (c : Writer.Col) (ps : List Writer.PageRec)
+    (hall : ∀ r ∈ ps, RecShape c r)
     (hp : ch.pages = ps.map (fun r => some (cursorPage c r))) (hn : ch.numValues = (sumRows ps : Int)) (hm : ch.maxDef = c.maxDef) :
     ChunkOk ch ∧ chunkRows ch = writtenRows c ps := by
   have hrows : chunkRows ch = writtenRows c ps := by unfold chunkRows writtenRows; rw [hp, hm]
@@ -479,8 +529,35 @@ theorem chunkOk_writer (ch : ColumnReader.Chunk Reader.Bytes) (c : Writer.Col) (
   · intro p hpm
     rw [hp, List.mem_map] at hpm
     obtain ⟨r, hr, rfl⟩ := hpm
-    exact ⟨_, rfl, by rw [hm]; exact cursorPage_ok c codec r (hall r hr)⟩
-  · rw [hrows, writtenRows_length c codec ps hall, hn]
+    exact ⟨_, rfl, by rw [hm]; exact cursorPage_okS c r (hall r hr)⟩
+  · rw [hrows, writtenRows_lengthS c ps hall, hn]
+
+/-! ### the same for `RecOk` (one of the byte-exact codecs) -/
+
+theorem decodedOf_rows (c : Writer.Col) (codec : Nat) (r : Writer.PageRec) (hr : RecOk c codec r) :
+    (decodedOf c r).defs.length = r.rows := decodedOf_rowsS c r hr.toShape
+
+theorem cursorPage_ok (c : Writer.Col) (codec : Nat) (r : Writer.PageRec) (hr : RecOk c codec r) :
+    Carquet.Proofs.Cursor.PageOk c.maxDef (cursorPage c r) := cursorPage_okS c r hr.toShape
+
+theorem writtenRows_length (c : Writer.Col) (codec : Nat) (ps : List Writer.PageRec) (h : ∀ r ∈ ps, RecOk c codec r) :
+    (writtenRows c ps).length = sumRows ps := writtenRows_lengthS c ps (fun r hr => (h r hr).toShape)
+
+theorem writtenRows_defs (c : Writer.Col) (codec : Nat) (ps : List Writer.PageRec) (h : ∀ r ∈ ps, RecOk c codec r) :
+    (writtenRows c ps).map (·.defLevel) =
+      (if c.maxDef > 0 then (ps.map (·.src.defs)).flatten else List.replicate (sumRows ps) 0) :=
+  writtenRows_defsS c ps (fun r hr => (h r hr).toShape)
+
+theorem writtenRows_vals (c : Writer.Col) (codec : Nat) (ps : List Writer.PageRec) (h : ∀ r ∈ ps, RecOk c codec r) :
+    (writtenRows c ps).filterMap (·.val) = (ps.map (·.src.values)).flatten :=
+  writtenRows_valsS c ps (fun r hr => (h r hr).toShape)
+
+open Carquet.Proofs.Cursor in
+theorem chunkOk_writer (ch : ColumnReader.Chunk Reader.Bytes) (c : Writer.Col) (codec : Nat) (ps : List Writer.PageRec)
+    (hall : ∀ r ∈ ps, RecOk c codec r)
+    (hp : ch.pages = ps.map (fun r => some (cursorPage c r))) (hn : ch.numValues = (sumRows ps : Int)) (hm : ch.maxDef = c.maxDef) :
+    ChunkOk ch ∧ chunkRows ch = writtenRows c ps :=
+  chunkOk_writerS ch c ps (fun r hr => (hall r hr).toShape) hp hn hm
 
 /-- `RecOk` from what the writer theorems establish (C05_pages_chain: `PageOk`; C05_written_table:
 `PagesOf`, i.e. `r = pageRecOf …`) plus the shape of the page-builder content and the size bounds -/
